@@ -374,6 +374,44 @@ def cheater_meets_iou_scenario(viol, stats, samples):
         pr.destroy()
 
 
+def start_failure_scenario(viol, stats, samples):
+    """Error exit under a fault: a sub-redo that cannot start its job (a.do lowers the descriptor limit below the number
+    `make_pipe` asks for, so `JobServerHandle::start` fails) exits with an error, a.do tolerates it, every script
+    succeeds.  The token the sub-redo held must survive the failed start (before a5e14cf it was destroyed first and lost:
+    `redo -j1 a b` waited for a token for b forever; at -j2 the build went on with one job less)."""
+    for j in (1, 2):
+        pr = Project()
+        try:
+            pr.write("a.do", 'ulimit -n 40\nredo-ifchange x || echo "start of x failed: $?" >>notes\n')
+            pr.write("x.do", "echo x\n")
+            pr.write("b.do", "echo b\n")
+            pr.write("c.do", "echo c\n")
+            r = sched.run_cmds(pr, [["redo", "-j%d" % j, "a", "b", "c"]], timeout=40)[0]
+            stats["runs"] += 1
+            notes = (pr.read("notes") or b"").decode()
+            stats["start_failures"] = stats.get("start_failures", 0) + notes.count("start of x failed")
+            problems = []
+            if r.timed_out:
+                problems.append("`redo -j%d a b c` did not finish within 40 s (waiting for a token that no longer exists?)" % j)
+            elif r.rc != 0:
+                problems.append("`redo -j%d a b c` exited %d although every script succeeds" % (j, r.rc))
+            if "on exit: expected" in r.err:
+                problems.append("the jobserver owner did not end with the tokens it started with: " + re.search(r"on exit: expected[^\n]*", r.err).group(0))
+            rep = sched.replay_tokens(r.trace)
+            for grp, ans, nev in rep:
+                stats["events"] += nev
+                stats["groups"] += 1
+                if not ans.startswith("ok") and not r.timed_out:
+                    problems.append("token trace rejected by the model (jobserver %s): %s" % (grp, ans))
+            if problems:
+                p = write_replay("C08", "start-failure-j%d" % j, dict(kind="impl-monitor+trace", problems=problems, stderr=r.err[-1500:], notes=notes, events=sched.token_groups(r.trace),
+                                                                      scenario="a.do: ulimit -n 40; redo-ifchange x || note.  x.do, b.do, c.do: echo.  redo -j%d a b c" % j))
+                viol.append(Violation("C08", p, "a job that cannot be started (descriptor limit) under -j%d: %s" % (j, "; ".join(problems))))
+                return
+        finally:
+            pr.destroy()
+
+
 def makeflags_level(ctx, rng, viol):
     """The jobserver's wire format: `parse_makeflags` (hook verif_parse_makeflags) against `Makeflags.parse` on token
     sequences around the two option spellings, and the value a real `redo -jN` exports to its scripts against
@@ -552,6 +590,8 @@ def run(ctx):
         nested_after_iou_scenarios(viol, stats, samples)
     if not viol:
         cheater_meets_iou_scenario(viol, stats, samples)
+    if not viol:
+        start_failure_scenario(viol, stats, samples)
     return dict(evaluations=stats["events"], distinct_nontrivial=stats["runs"],
                 rule="MAKEFLAGS strings (all sequences of up to 3 tokens over the option spellings, digits, signs, commas, blanks; seeded longer ones; i32 boundary values) through the real parser and the model, and the value a real redo -jN exports against Makeflags.format; two directed scenarios for the borrowed-token path (followed job waits for a locked target, wakes up with no token free, cheats; then exits with the loan / releases it again) under an inherited jobserver; three directed lock-contention runs under an inherited jobserver (two concurrent top-level commands want the same target; the waiter has all its slots busy first, gives up its token, blocks on the lock; the other build fails / completes the target; k = 0..2 tokens in the pipe, redo / redo-ifchange, -k, with and without log): pipe contents afterwards, model replay, final model pipe and IOU count; two nested `redo -jM sub` runs (M = 1..2) inside `redo -jN` / an inherited jobserver of N-1 tokens (N = 4..5; fan and diamond sub-graphs of 5-6 recording scripts): overlap of the sub-build's work sections <= M (+1 with log), overall <= N, outer tokens conserved, every jobserver's trace replayed; seeded random build graphs (3-9 targets; chains, fans, diamonds, layers; failing, checksummed, always targets) built at -j1..4 with own or inherited (MAKEFLAGS) jobserver, with and without log capture, first build and rebuild; every primitive token event of every process is replayed by the Lean acceptor; distinct = runs",
                 samples=samples, traces_validated_against_impl=stats["groups"], disagreements_checked=stats["events"], distribution=stats, known_hit=known_hit)
